@@ -171,13 +171,13 @@ def _check_data(run: Run, fa, fi, ret_stmt, ret_node, data) -> None:
         feeds = []
         if data[2]:
             feeds.append((ret_stmt, data[2][0]))
-        # mutation statements on the same local
-        v = ret_stmt.value
+        # the local variable handed to the digest constructor (found at the hashlib call itself)
         name = None
-        # find the Name used as digest argument
-        for c in ast.walk(v):
-            if isinstance(c, ast.Call) and c.args and isinstance(c.args[0], ast.Name):
-                name = c.args[0].id
+        for c in calls_in(fi):
+            if fa.cfg.has_node(c):
+                ct = strip_sites(fa.term_of(c.func))
+                if ct[0] == "global" and ct[1].startswith("hashlib.") and c.args and isinstance(c.args[0], ast.Name):
+                    name = c.args[0].id
         if name:
             for n in own_nodes(fi):
                 if isinstance(n, ast.Call) and isinstance(n.func, ast.Attribute) and isinstance(n.func.value, ast.Name) and n.func.value.id == name:
@@ -191,7 +191,7 @@ def _check_data(run: Run, fa, fi, ret_stmt, ret_node, data) -> None:
         for st, f in feeds:
             if f[0] == "app" and f[1] == ("global", "builtins.map") and len(f[2]) == 2 and f[2][0] == ("global", "builtins.ord") and is_dump(f[2][1]):
                 run.ok("C20.R1", fi, "digest input is map(ord, ast.dump(a))", show(f))
-                run.fail("C20.R5", fi, st, "per-character ord() into a byte buffer: any character above U+00FF raises ValueError, the hash is not total on queries", "ast.dump(a).encode('utf-8')", show(f))
+                run.fail("C20.R5", fi, st, "per-character ord() into a byte buffer: any character above U+00FF raises ValueError, the hash is not total on queries", "ast.dump(a).encode('utf-8')", show(f), key="text -> bytes by map(ord, dump) into a bytearray")
             elif f[0] == "app" and f[1][0] == "attr" and f[1][2] == "encode" and is_dump(f[1][1]):
                 run.ok("C20.R1", fi, "digest input is ast.dump(a).encode(..)", show(f))
             else:
